@@ -12,6 +12,12 @@ for f in *.tla; do
   out=$(java -cp /opt/veriftools/tla/tla2tools.jar:/opt/veriftools/tla/CommunityModules-deps.jar tla2sany.SANY "$f" 2>&1) || true
   if echo "$out" | grep -q -E "Parse Error|Semantic errors|\*\*\* Errors|Could not"; then echo "SANY rejects $f"; echo "$out" | tail -20; fail=1; fi
 done
+# the TLAPS proof module needs the proof system's standard library on the path (parsed only when that library is installed)
+TLAPSLIB=/opt/veriftools/tlapm/lib/tlapm/stdlib
+if [ -d "$TLAPSLIB" ]; then
+  out=$(cd tlaps && java -DTLA-Library="$TLAPSLIB" -cp /opt/veriftools/tla/tla2tools.jar:/opt/veriftools/tla/CommunityModules-deps.jar tla2sany.SANY MaxPrincipleProof.tla 2>&1) || true
+  if echo "$out" | grep -q -E "Parse Error|Semantic errors|\*\*\* Errors|Could not"; then echo "SANY rejects tlaps/MaxPrincipleProof.tla"; echo "$out" | tail -20; fail=1; fi
+fi
 cd ..
 [ $fail -eq 0 ] && echo "setup ok: all specifications parse"
 exit $fail
